@@ -124,7 +124,17 @@ fn main() {
     }
     if thorough {
         // every f32 bit pattern that is not a NaN
-        (0u32..=u32::MAX).into_par_iter().for_each(|b| { let f = f32::from_bits(b); if !f.is_nan() { rep.add("evaluations", 1); match to_term(&f).and_then(|t| from_term::<f32>(&t)) { Ok(x) if x.to_bits() == b => {}, other => rep.violation("f32 altered by the term round trip", json!({"bits": b, "back": format!("{:?}", other.map(|x| x.to_bits()))})) } } });
+        (0u32..=0xffff).into_par_iter().for_each(|hi| {
+            let mut n = 0i64;
+            for lo in 0u32..=0xffff {
+                let b = hi << 16 | lo;
+                let f = f32::from_bits(b);
+                if f.is_nan() { continue; }
+                n += 1;
+                match to_term(&f).and_then(|t| from_term::<f32>(&t)) { Ok(x) if x.to_bits() == b => {}, other => rep.violation("f32 altered by the term round trip", json!({"bits": b, "back": format!("{:?}", other.map(|x| x.to_bits()))})) }
+            }
+            rep.add("evaluations", n);
+        });
         (0u32..(u32::MAX / 257)).into_par_iter().for_each(|k| { let b = k * 257; let f = f32::from_bits(b); if !f.is_nan() { check(&rep, "f32", &f); } });
     } else {
         let mut fs: Vec<f32> = vec![0.0, -0.0, 1.0, f32::MIN_POSITIVE, f32::MAX, f32::MIN, f32::INFINITY, f32::NEG_INFINITY, 1e-45, 16777217.0];
